@@ -120,9 +120,13 @@ ATOMS = [
     # chain ids may be digits
     ("ATOM", 77, "O", "HOH", "2", 5, "7.250", "-3.125", "9.500", "-0.8340",
      "1.7683"),
+    # fields that touch in the fixed-column layout pdb2pqr itself writes
+    # (chain | four-digit number, x | y)
+    ("ATOM", 78, "CA", "ALA", "A", 1000, "-100.000", "-100.000", "5.000",
+     "0.1000", "1.9080"),
 ]
 ATOM_LISTS = [(0, "fixed")] + [
-    (n, lay) for n in (1, 2, 3, 4) for lay in ("fixed", "ws")
+    (n, lay) for n in (1, 2, 3, 4, 5) for lay in ("fixed", "ws")
 ]
 
 _EXP_MAG = [-30, -20, -10, -5, -3, -1, 0, 1, 2, 3, 5]
